@@ -115,6 +115,9 @@ pub fn shortcut_sites(item: &Item) -> usize {
     let mut n = 0;
     for l in item.attr_lists() {
         for i in l {
+            if i.fixed {
+                continue;
+            }
             if basics_of(&i.name).is_some() {
                 n += 1;
             }
@@ -133,6 +136,10 @@ pub fn rewrite_shortcuts(item: &Item, select: &[bool]) -> Item {
     for l in out.attr_lists_mut() {
         let mut nl: Vec<Instr> = vec![];
         for i in l.iter() {
+            if i.fixed {
+                nl.push(i.clone());
+                continue;
+            }
             if let Some(bs) = basics_of(&i.name) {
                 let sel = select.get(site).copied().unwrap_or(false);
                 site += 1;
